@@ -53,15 +53,111 @@ def _splicable(helper: FuncInfo) -> bool:
         if isinstance(n, (ast.Yield, ast.YieldFrom, ast.Global, ast.Nonlocal)):
             return False
     rets = [n for n in own_nodes(node) if isinstance(n, ast.Return)]
-    if len(rets) > 1:
-        return False
-    if rets and rets[0] is not body[-1]:
+    if (len(rets) > 1 or (rets and rets[0] is not body[-1])) and structure_returns([clone(s) for s in body], "_ret") is None:
         return False
     if getattr(node, "decorator_list", None):
         deco = [ast.unparse(d) for d in node.decorator_list]
         if any(d not in ("staticmethod", "classmethod") for d in deco):
             return False
     return True
+
+
+def _has_return(stmts) -> bool:
+    for s in stmts if isinstance(stmts, list) else [stmts]:
+        if isinstance(s, (ast.FunctionDef, ast.AsyncFunctionDef, ast.ClassDef)):
+            continue
+        if isinstance(s, ast.Return):
+            return True
+        for fld in BLOCK_FIELDS:
+            blk = getattr(s, fld, None)
+            if isinstance(blk, list) and _has_return([b for b in blk if isinstance(b, ast.stmt)]):
+                return True
+        for h in getattr(s, "handlers", []) or []:
+            if _has_return(h.body):
+                return True
+    return False
+
+
+def _always_terminates(stmts: List[ast.stmt]) -> bool:
+    if not stmts:
+        return False
+    last = stmts[-1]
+    if isinstance(last, (ast.Return, ast.Raise)):
+        return True
+    if isinstance(last, ast.If):
+        return bool(last.orelse) and _always_terminates(last.body) and _always_terminates(last.orelse)
+    if isinstance(last, (ast.With, ast.AsyncWith)):
+        return _always_terminates(last.body)
+    if isinstance(last, ast.Try):
+        return not last.orelse and not _has_return(last.finalbody) and _always_terminates(last.body) and all(_always_terminates(h.body) for h in last.handlers)
+    return False
+
+
+def structure_returns(stmts: List[ast.stmt], retvar: str) -> Optional[List[ast.stmt]]:
+    """
+    The statement list with every ``return X`` turned into ``<retvar> = X`` and the statements after an early return
+    moved into the branch that does not return (guard style: ``if c: return a`` / rest  ->  ``if c: ret = a`` /
+    ``else: rest``).  Nothing is duplicated; None when the shape is not covered (return inside a loop, a branch that
+    only sometimes returns, a try that returns on some paths only).
+    """
+
+    def assign(ret: ast.Return) -> ast.stmt:
+        node = ast.Assign([ast.Name(retvar, ast.Store())], ret.value if ret.value is not None else ast.Constant(None), lineno=ret.lineno, col_offset=0)
+        return node
+
+    def tr(block: List[ast.stmt]) -> Optional[List[ast.stmt]]:
+        out: List[ast.stmt] = []
+        for idx, s in enumerate(block):
+            rest = block[idx + 1:]
+            if isinstance(s, ast.Return):
+                out.append(assign(s))
+                return out
+            if not _has_return(s):
+                out.append(s)
+                continue
+            if isinstance(s, ast.If):
+                b_ret, o_ret = _has_return(s.body), _has_return(s.orelse)
+                b_term, o_term = _always_terminates(s.body), _always_terminates(s.orelse)
+                if (b_ret and not b_term) or (o_ret and not o_term):
+                    return None
+                nb, no, nrest = tr(s.body), tr(s.orelse), None
+                if nb is None or no is None:
+                    return None
+                if not (b_term and o_term):
+                    nrest = tr(rest)
+                    if nrest is None:
+                        return None
+                    if b_term:
+                        no = no + nrest
+                    else:
+                        nb = nb + nrest
+                s.body = nb or [ast.Pass(lineno=s.lineno, col_offset=0)]
+                s.orelse = no
+                out.append(s)
+                return out
+            if isinstance(s, (ast.With, ast.AsyncWith)) and _always_terminates(s.body):
+                nb = tr(s.body)
+                if nb is None:
+                    return None
+                s.body = nb
+                out.append(s)
+                return out
+            if isinstance(s, ast.Try) and _always_terminates([s]):
+                nb = tr(s.body)
+                if nb is None:
+                    return None
+                s.body = nb
+                for h in s.handlers:
+                    hb = tr(h.body)
+                    if hb is None:
+                        return None
+                    h.body = hb
+                out.append(s)
+                return out
+            return None
+        return out
+
+    return tr(stmts)
 
 
 def _assigned_names(node: ast.AST) -> List[str]:
@@ -101,11 +197,12 @@ class _Rename(ast.NodeTransformer):
         return node
 
 
-def inlined(ctx, fn: FuncInfo, depth: int = 2) -> FuncInfo:
+def inlined(ctx, fn: FuncInfo, depth: int = 2, keep: Tuple[str, ...] = ()) -> FuncInfo:
     """A view of *fn* with small same-module helpers spliced in (see module docstring)."""
     counter = [0]
     new_node = clone(fn.node)
     view = FuncInfo(fn.module, fn.qualname, new_node, fn.cls, fn.parent)
+    view.nested = dict(fn.nested)  # local helpers resolve while splicing; re-indexed over the rewritten tree below
     changed = [False]
 
     def resolve(call: ast.Call, awaited: bool) -> Optional[FuncInfo]:
@@ -116,7 +213,7 @@ def inlined(ctx, fn: FuncInfo, depth: int = 2) -> FuncInfo:
         if len(callees) != 1:
             return None
         helper = callees[0]
-        if helper.module is not fn.module or helper.module.external or helper.key == fn.key:
+        if helper.module is not fn.module or helper.module.external or helper.key == fn.key or helper.key in keep:
             return None
         if helper.is_async != awaited:
             return None
@@ -141,6 +238,9 @@ def inlined(ctx, fn: FuncInfo, depth: int = 2) -> FuncInfo:
         for a, d in zip(hargs.kwonlyargs, hargs.kw_defaults):
             if d is not None:
                 defaults[a.arg] = d
+        rebound = set(_assigned_names(hnode))
+        helper_locals = rebound | set(params)
+        target_names = {n.id for t in (stmt.targets if isinstance(stmt, ast.Assign) else [getattr(stmt, "target", None)]) if t is not None for n in ast.walk(t) if isinstance(n, ast.Name)}
         for idx, p in enumerate(params):
             if is_method_on_self and idx == 0:
                 recv = call.func.value  # type: ignore[union-attr]
@@ -154,6 +254,9 @@ def inlined(ctx, fn: FuncInfo, depth: int = 2) -> FuncInfo:
                 arg = defaults.get(p)
             if arg is None or isinstance(arg, ast.Starred):
                 return None
+            if isinstance(arg, ast.Name) and p in bound and p not in rebound and arg.id not in helper_locals and arg.id not in target_names:
+                mapping[p] = arg.id  # a plain local handed through: the helper reads the caller's name
+                continue
             mapping[p] = prefix + p
             pre.append(ast.Assign([ast.Name(prefix + p, ast.Store())], clone(arg), lineno=stmt.lineno, col_offset=0))
         for name in _assigned_names(hnode):
@@ -162,9 +265,40 @@ def inlined(ctx, fn: FuncInfo, depth: int = 2) -> FuncInfo:
         renamer = _Rename(mapping)
         body = [renamer.visit(s) for s in body]
         result_expr: ast.expr = ast.Constant(None)
-        if body and isinstance(body[-1], ast.Return):
+        n_rets = sum(1 for s in body if _has_return(s))
+        if body and isinstance(body[-1], ast.Return) and n_rets == 1:
             last = body.pop()
             result_expr = last.value if last.value is not None else ast.Constant(None)
+        elif n_rets:
+            total = _always_terminates(body)
+            slot = prefix + "ret"
+            direct = False
+            if total and isinstance(stmt, ast.Assign) and len(stmt.targets) == 1 and isinstance(stmt.targets[0], ast.Name):
+                tname = stmt.targets[0].id
+                used_inside = any(isinstance(n, ast.Name) and n.id == tname for s_ in body for n in ast.walk(s_)) or any(isinstance(n, ast.Name) and n.id == tname for s_ in pre for n in ast.walk(s_))
+                if not used_inside:
+                    slot, direct = tname, True  # every path of the helper ends in a return: the target is its return slot
+            structured = structure_returns(body, slot)
+            if structured is None:
+                return None
+            body = ([] if total else [ast.Assign([ast.Name(slot, ast.Store())], ast.Constant(None), lineno=stmt.lineno, col_offset=0)]) + structured
+            if direct:
+                out = pre + body
+                for s in out:
+                    ast.fix_missing_locations(s)
+                return out
+            result_expr = ast.Name(slot, ast.Load())
+        tails: Optional[List[ast.stmt]] = None
+        if isinstance(stmt, ast.Assign) and len(stmt.targets) == 1 and isinstance(stmt.targets[0], ast.Tuple) and isinstance(result_expr, ast.Tuple) and len(result_expr.elts) == len(stmt.targets[0].elts):
+            # a, b = helper(..) with `return x, y`: element-wise assignments (no element mentions a target)
+            tnames = {n.id for n in ast.walk(stmt.targets[0]) if isinstance(n, ast.Name)}
+            if all(isinstance(t, ast.Name) for t in stmt.targets[0].elts) and not any(isinstance(n, ast.Name) and n.id in tnames for e in result_expr.elts for n in ast.walk(e)) and not any(isinstance(e, ast.Starred) for e in result_expr.elts):
+                tails = [ast.Assign([clone(t)], e, lineno=stmt.lineno, col_offset=0) for t, e in zip(stmt.targets[0].elts, result_expr.elts)]
+        if tails is not None:
+            out = pre + body + tails
+            for s in out:
+                ast.fix_missing_locations(s)
+            return out
         if isinstance(stmt, ast.Assign):
             tail: ast.stmt = ast.Assign(clone(stmt.targets), result_expr, lineno=stmt.lineno, col_offset=0)
         elif isinstance(stmt, ast.AnnAssign):
@@ -227,6 +361,7 @@ def inlined(ctx, fn: FuncInfo, depth: int = 2) -> FuncInfo:
 
         visit(parent.node.body)  # type: ignore[attr-defined]
 
+    view.nested = {}
     index_nested(view)
     view.inlined_helpers = counter[0]  # type: ignore[attr-defined]
     return view
